@@ -162,6 +162,21 @@ type Elem struct {
 type ChainCase struct {
 	Elems []Elem `json:"elems"`
 	Tag   uint64 `json:"tag"`
+	// FailFirst > 0: before the judged Write, the same chain is written to a destination that
+	// fails after FailFirst-1 bytes (a failed earlier attempt must not show in the next output).
+	FailFirst int `json:"fail_first,omitempty"`
+}
+
+type failingWriter struct{ k int }
+
+func (w *failingWriter) Write(p []byte) (int, error) {
+	if len(p) <= w.k {
+		w.k -= len(p)
+		return len(p), nil
+	}
+	n := w.k
+	w.k = 0
+	return n, fmt.Errorf("destination failed (injected by the harness)")
 }
 
 type mat struct{ der, ocsp, sct []byte }
@@ -245,6 +260,10 @@ var chainProp = vh.Define("C17", "chain-roundtrip", func(c ChainCase, r *vh.R) {
 	}
 	bad := presence(c.Elems)
 
+	if c.FailFirst > 0 {
+		chain.Write(&failingWriter{k: c.FailFirst - 1})
+		r.Class("after-failed-write")
+	}
 	var buf bytes.Buffer
 	werr := chain.Write(&buf)
 	out := buf.Bytes()
@@ -450,6 +469,9 @@ func TestPropChain(t *testing.T) {
 				e.OCSP = drawOptBlobLen(t, "ocsp")
 			}
 			c.Elems = append(c.Elems, e)
+		}
+		if rapid.IntRange(0, 3).Draw(t, "failfirst") == 0 {
+			c.FailFirst = 1 + rapid.SampledFrom([]int{0, 1, 9, 10, 30, 500, 1000, 3000}).Draw(t, "failat")
 		}
 		return c
 	})
